@@ -1,6 +1,11 @@
 //! vpcheck: bounded exhaustive checks of the wow_srp properties. See /verif/DESIGN.md.
 
 mod c07_c08;
+mod c09;
+mod c10;
+mod c11;
+mod c12;
+mod ciphers;
 mod common;
 mod selftest;
 
@@ -40,6 +45,10 @@ fn main() {
             let code = match args[2].as_str() {
                 "C07" => c07_c08::run::<c07_c08::Vanilla>(tier, seed),
                 "C08" => c07_c08::run::<c07_c08::Tbc>(tier, seed),
+                "C09" => c09::run(tier, seed),
+                "C10" => c10::run(tier, seed),
+                "C11" => c11::run(tier, seed),
+                "C12" => c12::run(tier, seed),
                 other => {
                     eprintln!("unknown property {other}");
                     2
